@@ -20,7 +20,8 @@ RULE = ("Hypothesis draws a history of 1-10 calls on ONE store directory (mostly
         "spelling shapes, preceding op kinds). Family 'overlap': two calls that ask for digests (get_hex_digest x "
         "get_hex_digest / store_object / retrieve+read) run as two threads on ONE instance under every "
         "single-preemption schedule of the owned scheduler, with every read of a store file a yield point "
-        "before AND after the OS call; each answer must still be the true digest.")
+        "before AND after the OS call; each answer must still be the true digest."
+        ' Enumerated family faulted-store (round 9): store_object naming an additional and / or a checksum algorithm, content absent / unreferenced / referenced before, with an EIO at every fault site in turn - plainly, and reported AFTER the rename / replace / link took effect (a lost reply); the call may raise, but a reported success must carry exactly the five defaults plus the algorithms of that call, all true, and get_hex_digest must agree.')
 ASSUMPTIONS = ["store_object without a pid is not given algorithm arguments (the interface ignores them there)",
                "checksums supplied for validation are correct (C06 owns wrong ones)"]
 PIDS = ["p.a", "p.b"]
